@@ -216,6 +216,19 @@ CLAIMED = {
             "Trusted: TLC, ASan as out-of-bounds sensor. Documents with duplicate keys, out-of-range numbers or \\u escapes "
             "above U+00FF have no reference value (totality only).",
             "DESIGN.md 3.5"),
+    "C07": ("TLA+ per-pixel model of the canvas (spec/Canvas): one generic clipped-blit operator parameterised by the "
+            "colour rule, fill, dashed lines, the relational line law, mirror / invert / alpha identities, crop for clipping "
+            "invariance: TLC checks clipping invariance and involutions of the model in small scope and validates recorded "
+            "operation histories (the whole pixel buffer is logged after each call)",
+            "Exhaustive 1-D sweeps of every (x, width, source offset) in [-3, size+3] for destination widths 0..4 (thorough "
+            "0..8) in both orientations over the seven blit kinds and fill_rect; random operation histories on canvases up to "
+            "8x8 with coordinates up to +-10^9, both alpha modes; Bresenham lines judged by the line law on a freshly painted "
+            "canvas; transforms and copies as identity laws through 8/16/32/64-bit channel widths; clipping invariance of "
+            "draw_text / fill_rect / blit with glyph cells placed exactly on the canvas edges. ASan build with exact-size "
+            "pixel buffers; any out_of_range escaping a drawing call is a rejected outcome.",
+            "Trusted: TLC, ASan. The arithmetic model is for 8-bit channels; coordinates are limited to +-10^9 (32-bit checker "
+            "integers); resize_blit is not modelled.",
+            "DESIGN.md 3.7"),
 }
 
 NOT_YET = "check not built yet in this round (planned: see DESIGN.md section 3)"
